@@ -67,6 +67,10 @@ def shape_spec(shape):
              "cells": {"it": def_formula("it", "x", ["P[x].c()", "P[x].d(1)"], 0),
                        "top": def_formula("top", "", ["it(1)", "it(2)"], 0)}}
         return {"refs": refs, "spaces": {"P": P, "S": S}}
+    if k == "allow":    # allow_none changed between evaluations: static cells, derived cells, ItemSpace copies
+        P = {"formula": "def _formula(i):\n    return None\n", "refs": {"zz": 0},
+             "cells": {"c": def_formula("c", "", [], 3), "d": def_formula("d", "x", ["c()"], 0)}}
+        return {"refs": refs, "spaces": {"P": P, "Q": {"bases": ["P"], "formula": "def _formula(i):\n    return None\n"}}}
     raise ValueError(k)
 
 
@@ -83,7 +87,19 @@ def shape_elems(shape):
         return [("S", "e0", ()), ("S", "e1", (0,)), ("S", "e1", (1,)), ("S", "e2", ()), ("S", "e3", ())]
     if k == "item":
         return [("S", "it", (1,)), ("S", "top", ()), ("P[1]", "c", ()), ("P[1]", "d", (1,)), ("P[2]", "c", ())]
+    if k == "allow":
+        return [("P", "c", ()), ("P[1]", "c", ()), ("P[1]", "d", (1,)), ("Q", "c", ()), ("Q[1]", "c", ())]
     raise ValueError(k)
+
+
+def shape_edits(shape):
+    """Edit operations of the shape's alphabet (applied to the implementation and to the reference model)."""
+    if shape["kind"] == "allow":
+        out = [{"op": "set_allow_none", "sp": "P", "c": "c", "v": v} for v in (True, False, None)]
+        out += [{"op": "set_allow_none", "sp": "P", "v": v} for v in (True, None)]
+        out += [{"op": "set_allow_none", "sp": "Q", "v": v} for v in (True, None)]
+        return out
+    return []
 
 
 def arm_points(shape):
